@@ -139,7 +139,12 @@ def gen_function(r, indent, names, depth=0, method=None, style=None):
     """method in (None, 'self', 'cls', 'static')"""
     pre = TAB * indent
     kw = "async def" if r.random() < 0.2 else "def"
-    name = names.fresh(prefix="fn_")
+    # methods and nested helpers may share a name with a definition elsewhere in the module (`__init__` / `run`
+    # in two classes, equally named nested helpers): legal Python, and where name-based lookups go wrong
+    if (method or depth > 0) and r.random() < 0.35:
+        name = r.choice(("__init__", "run", "helper", "fn_shared")) if method != "static" else r.choice(("run", "helper"))
+    else:
+        name = names.fresh(prefix="fn_")
     parts, params = gen_signature(r, first={"self": "self", "cls": "cls"}.get(method))
     ret = r.choice(("int", "str", "bool", "None", "Optional[int]", "List[str]")) if r.random() < 0.5 else None
     lines = []
